@@ -453,6 +453,39 @@ func runC02(c *Ctx) {
 			"the variable handed to ItemActionTracker.Remove is assigned again after the cursor was moved to the leaf successor: removing an item that sits in an inner node records the SUCCESSOR's removal (and locks the successor's id); the first commit attempt writes the nodes as they are, but after a conflict the refetch-and-merge replays the tracker - the item really removed comes back and the successor disappears, with Commit returning nil")
 	}
 
+
+	r8 := c.Rule("R8", "an update leaves a newer item version behind, which is what makes a concurrent reader's commit fail its refetch-and-merge check: in itemActionTracker.Update the version bump is applied to the incoming item (the object the caller writes back into the node slot and the tracker keeps), not to the copy tracked before", 2)
+	{
+		f := w.Fn("common.itemActionTracker.Update")
+		c.Analysed(f)
+		info := f.Pkg.TypesInfo
+		ver := w.Field("btree", "Item", "Version")
+		itemP := f.Obj.Type().(*types.Signature).Params().At(1)
+		n := 0
+		var bad []string
+		var pos token.Pos
+		ast.Inspect(f.Body, func(x ast.Node) bool {
+			inc, ok := x.(*ast.IncDecStmt)
+			if !ok || inc.Tok != token.INC || fieldOfSelector(info, inc.X) != ver {
+				return true
+			}
+			n++
+			sel := ast.Unparen(inc.X).(*ast.SelectorExpr)
+			id, isID := ast.Unparen(sel.X).(*ast.Ident)
+			if !isID || info.Uses[id] != types.Object(itemP) {
+				bad = append(bad, types.ExprString(inc.X))
+				pos = inc.Pos()
+			}
+			return true
+		})
+		if pos == token.NoPos {
+			pos = f.Decl.Pos()
+		}
+		c.Check(n >= 1, r8, "Update: the item's version is bumped", f.Decl.Pos(), fmt.Sprintf("%d bump site(s)", n), "no Version++ in itemActionTracker.Update", nil)
+		c.Check(len(bad) == 0, r8, "Update: the bump is applied to the incoming item", pos, "item.Version++",
+			fmt.Sprintf("the version bump targets %v: the callers hand Update a COPY of the node slot and write that copy back afterwards, so a bump on the previously tracked object is overwritten - a read-modify-write commits with an unchanged item version, and a transaction that read the old value passes its refetch-and-merge check and overwrites it (lost update)", bad), nil)
+	}
+
 }
 
 func shortKey(k string) string {
